@@ -17,7 +17,7 @@ type Parser struct {
 
 // ParseStatement parses a SQL statement.
 func (p *Parser) ParseStatement() (ast.Statement, error) {
-	p.nextToken()
+	p.nextTokenOrBad()
 	stmt := p.parseStatement()
 	if p.Token.Kind != token.TokenEOF {
 		p.errors = append(p.errors, p.errorfAtToken(&p.Token, "expected token: <eof>, but: %s", p.Token.Kind))
@@ -32,7 +32,7 @@ func (p *Parser) ParseStatement() (ast.Statement, error) {
 
 // ParseStatements parses SQL statements list separated by semi-colon.
 func (p *Parser) ParseStatements() ([]ast.Statement, error) {
-	p.nextToken()
+	p.nextTokenOrBad()
 	stmts := parseStatements(p, p.parseStatement)
 	if p.Token.Kind != token.TokenEOF {
 		p.errors = append(p.errors, p.errorfAtToken(&p.Token, "expected token: <eof>, but: %s", p.Token.Kind))
@@ -47,7 +47,7 @@ func (p *Parser) ParseStatements() ([]ast.Statement, error) {
 
 // ParseQuery parses a query statement.
 func (p *Parser) ParseQuery() (*ast.QueryStatement, error) {
-	p.nextToken()
+	p.nextTokenOrBad()
 	stmt := p.parseQueryStatement()
 	if p.Token.Kind != token.TokenEOF {
 		p.errors = append(p.errors, p.errorfAtToken(&p.Token, "expected token: <eof>, but: %s", p.Token.Kind))
@@ -62,7 +62,7 @@ func (p *Parser) ParseQuery() (*ast.QueryStatement, error) {
 
 // ParseExpr parses a SQL expression.
 func (p *Parser) ParseExpr() (ast.Expr, error) {
-	p.nextToken()
+	p.nextTokenOrBad()
 	expr := p.parseExpr()
 	if p.Token.Kind != token.TokenEOF {
 		p.errors = append(p.errors, p.errorfAtToken(&p.Token, "expected token: <eof>, but: %s", p.Token.Kind))
@@ -77,7 +77,7 @@ func (p *Parser) ParseExpr() (ast.Expr, error) {
 
 // ParseType parses a type name.
 func (p *Parser) ParseType() (ast.Type, error) {
-	p.nextToken()
+	p.nextTokenOrBad()
 	t := p.parseType()
 	if p.Token.Kind != token.TokenEOF {
 		p.errors = append(p.errors, p.errorfAtToken(&p.Token, "expected token: <eof>, but: %s", p.Token.Kind))
@@ -92,7 +92,7 @@ func (p *Parser) ParseType() (ast.Type, error) {
 
 // ParseDDL parses a CREATE/ALTER/DROP statement.
 func (p *Parser) ParseDDL() (ast.DDL, error) {
-	p.nextToken()
+	p.nextTokenOrBad()
 	ddl := p.parseDDL()
 	if p.Token.Kind != token.TokenEOF {
 		p.errors = append(p.errors, p.errorfAtToken(&p.Token, "expected token: <eof>, but: %s", p.Token.Kind))
@@ -107,7 +107,7 @@ func (p *Parser) ParseDDL() (ast.DDL, error) {
 
 // ParseDDLs parses CREATE/ALTER/DROP statements list separated by semi-colon.
 func (p *Parser) ParseDDLs() ([]ast.DDL, error) {
-	p.nextToken()
+	p.nextTokenOrBad()
 	ddls := parseStatements(p, p.parseDDL)
 	if p.Token.Kind != token.TokenEOF {
 		p.errors = append(p.errors, p.errorfAtToken(&p.Token, "expected token: <eof>, but: %s", p.Token.Kind))
@@ -122,7 +122,7 @@ func (p *Parser) ParseDDLs() ([]ast.DDL, error) {
 
 // ParseDML parses a INSERT/DELETE/UPDATE statement.
 func (p *Parser) ParseDML() (ast.DML, error) {
-	p.nextToken()
+	p.nextTokenOrBad()
 	dml := p.parseDML()
 	if p.Token.Kind != token.TokenEOF {
 		p.errors = append(p.errors, p.errorfAtToken(&p.Token, "expected token: <eof>, but: %s", p.Token.Kind))
@@ -137,7 +137,7 @@ func (p *Parser) ParseDML() (ast.DML, error) {
 
 // ParseDMLs parses INSERT/DELETE/UPDATE statements list separated by semi-colon.
 func (p *Parser) ParseDMLs() ([]ast.DML, error) {
-	p.nextToken()
+	p.nextTokenOrBad()
 	dmls := parseStatements(p, p.parseDML)
 	if p.Token.Kind != token.TokenEOF {
 		p.errors = append(p.errors, p.errorfAtToken(&p.Token, "expected token: <eof>, but: %s", p.Token.Kind))
@@ -225,7 +225,7 @@ func parseStatements[T ast.Node](p *Parser, doParse func() T) []T {
 	var nodes []T
 	for p.Token.Kind != token.TokenEOF {
 		if p.Token.Kind == ";" {
-			p.nextToken()
+			p.nextTokenOrBad()
 			continue
 		}
 
@@ -5822,4 +5822,20 @@ func (p *Parser) parseRenameTable(pos token.Pos) *ast.RenameTable {
 
 func (p *Parser) nextToken() {
 	p.Lexer.nextToken(false)
+}
+
+// nextTokenOrBad reads the next token outside of any recovery region (the first token of the input
+// and the token after a statement separator). A lexical error is recorded and the offending token is
+// read again as a <bad> token, which the production that follows reports and skips like any other
+// unexpected token.
+func (p *Parser) nextTokenOrBad() {
+	l := p.Lexer.Clone()
+	defer func() {
+		if r := recover(); r != nil {
+			p.handleError(r, l)
+			p.Lexer.nextToken(true)
+		}
+	}()
+
+	p.nextToken()
 }
